@@ -42,7 +42,7 @@ func realMain() int {
 	switch os.Args[1] {
 	case "worker":
 		return workerMain()
-	case "c07race", "c18race", "c09race":
+	case "c07race", "c18race", "c09race", "c06race":
 		if len(os.Args) < 4 {
 			return usage()
 		}
@@ -53,6 +53,9 @@ func realMain() int {
 		}
 		if os.Args[1] == "c09race" {
 			return c09RaceMain(seed, n)
+		}
+		if os.Args[1] == "c06race" {
+			return handsRaceMain(seed, n)
 		}
 		return c18RaceMain(seed, n)
 	case "replay":
